@@ -199,10 +199,23 @@ class GroupWorld(ClientWorld):
                 self.clock.seconds() < getattr(self, "nonkafka_at", 0.0) + 30.0:
             return False  # the error has to travel to start()'s Deferred (the member leaves the group first)
         if self.stop_rec is not None:
-            return bool(self.stop_rec[1])
+            # timers the group or its consumers left behind are run (up to the horizon): what they may not do is
+            # issue a request after stop() -- judged on the wire
+            return bool(self.stop_rec[1]) and not self.group_timers()
         if self.start_rec is not None and self.start_rec[0]:
             return True
         return self.caught_up()
+
+    def group_timers(self):
+        from afkak.consumer import Consumer
+        out = []
+        for call in self.clock.pending():
+            owner = getattr(call.func, "__self__", None)
+            tgt = getattr(owner, "f", None) if type(owner).__name__ == "LoopingCall" else None
+            own = getattr(tgt, "__self__", owner)
+            if isinstance(own, Consumer) or own is self.group:
+                out.append(call)
+        return out
 
     # ------------------------------------------------------------------ wire monitor
     def on_frame(self, conn, req):
@@ -511,16 +524,6 @@ class GroupWorld(ClientWorld):
         if self.stop_rec is not None and not self.stop_rec[1]:
             self.viol("stop", "stop-deferred-never-fires%s" % ("-horizon" if horizon else ""),
                       "stop() was called at step %d and its Deferred never fired" % self.stop_rec[0])
-        if self.PROP == "C16" and self.stop_rec is not None and self.stop_rec[1]:
-            from afkak.consumer import Consumer
-            for call in self.clock.pending():
-                owner = getattr(call.func, "__self__", None)
-                tgt = getattr(owner, "f", None) if type(owner).__name__ == "LoopingCall" else None
-                own = getattr(tgt, "__self__", owner)
-                if isinstance(own, Consumer) or own is self.group:
-                    self.viol("stop", "timer-left-after-group-stop",
-                              "after stop() fired the clock still holds %r" % (getattr(call.func, "__qualname__",
-                                                                                        call.func),))
 
     def outcome(self):
         return (self.state, self.generation, tuple(sorted((k, tuple(v)) for k, v in (self.assigned or {}).items())),
